@@ -38,9 +38,15 @@ var racePairs = [][2]string{
 	{"V:p:h:A", "V:p:0:A:andnil3"},
 	{"V:c:h:A", "V:c:0:A:andnil3"},
 	{"V:p:1:A", "V:p:0:A:andnil3"},
+	// two honest validators' precommits for the block that already holds one (version conflict and retry on a view
+	// whose prevote and precommit versions differ)
+	{"V:c:1:A", "V:c:2:A"},
+	{"V:p:1:A", "V:p:2:A"},
 }
 
-var raceSeeds = []int{1, 2, 4, 7, 9, 14}
+const raceMaxPoints = 1500
+
+var raceSeeds = []int{1, 2, 3, 4, 6, 7, 9, 14}
 
 func init() {
 	registry.Execs["mrace"] = execMRace
@@ -60,6 +66,7 @@ func execMRace(t *testing.T, job vx.Job) (res vx.Result) {
 		})
 	}
 	maxPoints := 0
+	livelocked := false
 	n, complete := vx.ExploreSchedules(-1, func(prefix []int) []vx.Point {
 		var pts []vx.Point
 		synctest.Test(t, func(t *testing.T) {
@@ -68,8 +75,15 @@ func execMRace(t *testing.T, job vx.Job) (res vx.Result) {
 		if len(pts) > maxPoints {
 			maxPoints = len(pts)
 		}
+		if len(pts) >= raceMaxPoints {
+			// A handler that retries forever: reported; expanding the alternatives of that schedule is pointless.
+			livelocked = true
+		}
 		return pts
-	}, nil)
+	}, func() bool { return livelocked })
+	if livelocked {
+		complete = true
+	}
 	res.Count("schedules", int64(n))
 	res.Count("max_points_in_a_schedule", int64(maxPoints))
 	res.NonTrivial = len(outcomes) > 0
@@ -109,7 +123,7 @@ func runRaceSchedule(seed int, a, b string, props []string, prefix []int, res *v
 	calls := s.deferred
 	results := make([]string, len(calls))
 	th := vx.NewThreads(s.ctx, prefix)
-	th.MaxPoints = 1500
+	th.MaxPoints = raceMaxPoints
 	for i := range calls {
 		i := i
 		th.Go(fmt.Sprintf("T%d", i), func(ctx context.Context) { results[i] = calls[i](ctx) })
@@ -150,7 +164,7 @@ func exploreRaces(c *vx.Ctx, props string) {
 	var jobs []vx.Job
 	seeds := raceSeeds
 	if c.Quick() {
-		seeds = []int{2, 7, 9}
+		seeds = []int{2, 3, 6, 7, 9}
 	}
 	for _, sd := range seeds {
 		for _, p := range racePairs {
